@@ -149,6 +149,19 @@ def run_case(args):
         else:
             in_param = "Cfg.src" if c["input"] == "class_attr" else "producer.src"
         before_slots, before_rest = project(ast.parse(out_src), sh)
+        if c.get("prev", "none") != "none":
+            # an earlier call in this process, from the same unchanged input file, into another output file
+            other = os.path.join(d, "other_out.py")
+            with open(other, "w") as f:
+                f.write("def consumer(x: int = 1, y=2):\n    return x\n")
+            try:
+                with contextlib.redirect_stdout(io.StringIO()), contextlib.redirect_stderr(io.StringIO()):
+                    sp.sync_properties(input_eval=c["prev"] == "eval", input_filename=in_p,
+                                       input_params=["SRC_VALUES" if c["prev"] == "eval" else in_param if c["mode"] != "eval" else "Cfg.src"],
+                                       output_filename=other, output_params=["consumer.x"],
+                                       output_param_wrap=WRAP if c["prev"] == "wrap" else None)
+            except Exception:
+                pass
         try:
             with contextlib.redirect_stdout(io.StringIO()), contextlib.redirect_stderr(io.StringIO()):
                 sp.sync_properties(input_eval=c["mode"] == "eval", input_filename=in_p, input_params=[in_param],
@@ -219,7 +232,7 @@ def check(run, replay=None):
 def _check(run, replay, work):
     run.rule = ("case = (target shape: function / self-method / cls-method / class, 1..4 positional with every suffix of defaults, 0..2 "
                 "keyword-only, annotated or not) x target slot x input kind (class attribute / function parameter) x mode (plain, wrap "
-                "template, --input-eval); distinct = distinct cases")
+                "template, --input-eval) x mode of an earlier call in the same process from the same input; distinct = distinct cases")
     run.assumptions += ["'syntactically identical' is judged on the AST (the command re-formats the output file with black)"]
     from harness import conv
     run.tlc("SyncProps", "MC_SyncProps.cfg", workers=4, timeout=600)
